@@ -245,6 +245,17 @@ constexpr auto memchr(CharT* ptr, CharT ch, SizeT n) -> CharT*
     return nullptr;
 }
 
+template <typename CharT, typename SizeT>
+[[nodiscard]] constexpr auto memcmp(CharT const* lhs, CharT const* rhs, SizeT count) noexcept -> int
+{
+    for (SizeT i{0}; i != count; ++i) {
+        if (lhs[i] != rhs[i]) {
+            return lhs[i] < rhs[i] ? -1 : 1;
+        }
+    }
+    return 0;
+}
+
 } // namespace etl::detail
 
 #endif // TETL_CSTRING_ALGORITHM_HPP
